@@ -31,8 +31,8 @@ macro "cf_auto0" h:ident : tactic => `(tactic|
      | (cases $h:ident; exact ⟨rfl, rfl, rfl⟩)
      | ((try cases $h:ident); cf_simp; done)))
 
-theorem branch_cf {w w' : World} {o : Nat} {a : Action} {b : Bool}
-    (h : w.branch o a b = .ok w') : CF w w' := by
+theorem branch_cf {w w' : World} {o : Nat} {a : Action} {b wt : Bool}
+    (h : w.branch o a b wt = .ok w') : CF w w' := by
   unfold World.branch at h; cf_auto0 h
 
 theorem yieldNow_cf {w w' : World} (h : w.yieldNow = .ok w') : CF w w' := by
@@ -73,7 +73,7 @@ theorem notifyWait1_cf {w : World} {o : Nat} {r : World × Nat}
   all_goals first
     | (cases h; done)
     | (have := yieldNow_cf ‹World.yieldNow _ = Except.ok _›; cases h; cf_simp; done)
-    | (have := branch_cf ‹World.branch _ _ _ _ = Except.ok _›; cases h; cf_simp; done)
+    | (have := branch_cf ‹World.branch _ _ _ _ _ = Except.ok _›; cases h; cf_simp; done)
 
 theorem wakerDrop_cf {w w' : World} {a : Nat} (h : w.wakerDrop a = .ok w') : CF w w' := by
   unfold World.wakerDrop at h
